@@ -1,7 +1,8 @@
 """Per-harness options (solver schedule, axiom groups, stretch obligations, fixed validation vectors)."""
 OPTS = {
     'C02': {},
-    'C17': {'*': {'programs': {'quick': 20, 'thorough': 200}}},
+    'C14': {'c14_nlerp_ends': {'vector_tol': 1e-12, 'vectors': [[0.0, 0.0, 0.0, 1.0, 1e-08, 0.0, 0.0, 1.0], [0.0, 0.0, 0.0, 1.0, -1e-08, -0.0, -0.0, -1.0]]}, 'c14_slerp_ends': {'vector_tol': 1e-12, 'vectors': [[0.0, 0.0, 0.0, 1.0, 1e-08, 0.0, 0.0, 1.0], [0.0, 0.0, 0.0, 1.0, -1e-08, -0.0, -0.0, -1.0]]}},
+    'C17': {'*': {'programs': {'quick': 20, 'thorough': 200}, 'mode': 'UF', 'exact_replay': True, 'abstract_first': False}},
     'C13': {'*': {'mixed_int': True, 'feas_solver': 'cvc5', 'abstract_first': False},
             'c13_fp_deg_f64': {'mode': 'FP', 'abstract_first': False}, 'c13_fp_rad_f64': {'mode': 'FP', 'abstract_first': False},
             'c13_fp_deg_f32': {'mode': 'FP', 'abstract_first': False}, 'c13_fp_rad_f32': {'mode': 'FP', 'abstract_first': False},
